@@ -1062,7 +1062,7 @@ func loopDeliverAll(rep *Report, inputs []loopInput, instances int) {
 				rep.Count("real_path_deliveries", 1)
 				rep.Count("evaluations", 1)
 				sig := "real path: " + trunc(in.Label, 300)
-				replay := mustJSON(map[string]any{"real_path_data": string(in.Data)})
+				replay := mustJSON(map[string]any{"real_path_data": in.Data})
 				if o.RecvCode != 0 {
 					rep.Violate(Violation{Kind: "real-recv-transaction-aborted", Group: "real-path", Sig: sig, Replay: replay,
 						What: fmt.Sprintf("the relayer's MsgRecvPacket transaction FAILED (code %d: %s): the receive path aborted the enclosing transaction instead of returning an acknowledgement [%s]", o.RecvCode, trunc(o.RecvLog, 300), trunc(in.Label, 300))})
